@@ -393,6 +393,16 @@ func (r *blockReader) PrecendingCharacter() rune {
 	if r.line == 0 && r.pos.Start <= firstSegment.Start {
 		return rune('\n')
 	}
+	if r.line > 0 && r.line < r.segments.Len() && r.pos.Start <= r.segments.At(r.line).Start {
+		// at the head of a line the preceding character is the end of the
+		// previous line, not the container marker before this segment
+		prev := r.segments.At(r.line - 1)
+		if prev.Start < prev.Stop && prev.Stop <= len(r.source) {
+			rn, _ := utf8.DecodeLastRune(r.source[prev.Start:prev.Stop])
+			return rn
+		}
+		return rune('\n')
+	}
 	l := len(r.source)
 	i := r.pos.Start - 1
 	for ; i < l && i >= 0; i-- {
